@@ -840,6 +840,85 @@ pub fn run(rep: &mut Report, thorough: bool) {
         );
         rep.stage("segment-header-combinations", "5 protocols' first requests and 3 payloads that complete no stream signature (cookie-less STUN with and without CHANGE-REQUEST, DNS) x 9 flag sets next to PSH|ACK (URG, ECE, CWR, NS, FIN combinations) x 15 urgent pointers (0..9, around the payload length, 0x8000, 0xffff) x 3 windows x 3 TCP option sets: answered by the responder of the leading payload bytes", plan.len() as u64, t0);
     }
+    // the decision does not depend on the CLIENT ADDRESS: every value of every byte of a unicast
+    // client address (IPv4: 4 x 256, IPv6: 16 x 256; group / loopback / unspecified first bytes and
+    // the responder's own address left out), 5 protocols' first requests behind [SYN, data]
+    {
+        let t0 = std::time::Instant::now();
+        let firsts: Vec<&Payload> = pls.iter().filter(|p| ["http-get", "ssh-2", "smb2-negotiate", "rpc-tcp-getport", "ghost"].contains(&p.name)).collect();
+        let mut srcs: Vec<Ip> = Vec::new();
+        if let (Ip::V4(b), Ip::V6(b6)) = (cli4(), cli6()) {
+            for pos in 0..4 {
+                for val in 0..=255u8 {
+                    let mut a = b;
+                    a[pos] = val;
+                    if a[0] == 0 || a[0] == 127 || a[0] >= 224 || Ip::V4(a) == srv4() {
+                        continue;
+                    }
+                    srcs.push(Ip::V4(a));
+                }
+            }
+            for pos in 0..16 {
+                for val in 0..=255u8 {
+                    let mut a = b6;
+                    a[pos] = val;
+                    if a[0] == 0xff || a[0] == 0 || Ip::V6(a) == srv6() {
+                        continue;
+                    }
+                    srcs.push(Ip::V6(a));
+                }
+            }
+        }
+        srcs.retain(|a| !cfg.deny_ips.contains(a));
+        let key = cfg.key;
+        let dims = [srcs.len() as u64, firsts.len() as u64];
+        let opts = RunOpts::new("dispatch-client-addresses").stateful().chunk(64).no_monitor();
+        let cfgs = cfg.clone();
+        engine::run(
+            &cfg,
+            engine::product(&dims),
+            &opts,
+            |i| {
+                let d = engine::unrank(i, &dims);
+                let a = srcs[d[0] as usize];
+                let mut f = flow(!a.is_v4(), 40000, 80);
+                f.cip = a;
+                let c = crate::sip::cookie_guess(key, &f.cip, &f.sip, f.cport, f.sport);
+                vec![Cmd::Frame(f.tcp(100, 0, crate::wire::F_SYN, b"")), Cmd::Frame(f.tcp(101, c.wrapping_add(1), crate::wire::F_PSH | crate::wire::F_ACK, &firsts[d[1] as usize].bytes))]
+            },
+            |it: &Item, sk: &mut Sink| {
+                sk.count("frames", 2);
+                let d = engine::unrank(it.idx, &dims);
+                let want = match crate::sig::dispatch(&sigs, &firsts[d[1] as usize].bytes, false) {
+                    crate::sig::Dispatch::Matched(p, _, _) => match p {
+                        crate::sig::Proto::Http => "http",
+                        crate::sig::Proto::Ssh => "ssh",
+                        crate::sig::Proto::Ghost => "ghost",
+                        crate::sig::Proto::Stun => "stun",
+                        crate::sig::Proto::RpcTcp => "rpc-tcp",
+                        crate::sig::Proto::RpcUdp => "rpc-udp",
+                        crate::sig::Proto::Smb1 | crate::sig::Proto::Smb2 => "smb",
+                    },
+                    _ => "nobody",
+                };
+                let app = it.outs[2].reply.as_deref().and_then(crate::mask::app_payload).map(|(_, p)| p).unwrap_or_default();
+                let got = if app.is_empty() { "nobody" } else { responder_of(&app) };
+                if got != want {
+                    sk.violation(Violation {
+                        prop: "C10".into(),
+                        key: format!("decision-depends-on-client-address:{}-instead-of:{}", got, want),
+                        what: format!("'{}' from client address {} is answered by {} (its leading bytes select {}, as they do from any other address)", firsts[d[1] as usize].name, srcs[d[0] as usize], got, want),
+                        cfg: cfgs.clone(),
+                        cmds: it.cmds.to_vec(),
+                        idx: it.idx,
+                        stage: "dispatch-client-addresses".into(),
+                    });
+                }
+            },
+            &mut rep.sink,
+        );
+        rep.stage("dispatch-client-addresses", "5 protocols' first requests behind [SYN, data] from every value 0..255 of each byte of a unicast client address (IPv4 4 positions, IPv6 16 positions): answered by the responder of the leading payload bytes", engine::product(&dims), t0);
+    }
     // near misses at the observable level: datagrams / first segments whose leading bytes complete
     // NO published signature (one literal byte of the signature altered; or, for the end-anchored
     // forms, trailing bytes after a complete match) must not be answered by a signature-dispatched
